@@ -20,6 +20,10 @@ func init() { generators = append(generators, genTranscripts) }
 
 var transcriptDirs = []string{"crypto/schnorr", "crypto/dlnproof", "crypto/modproof", "crypto/facproof", "crypto/mta", "crypto/paillier", "crypto/commitments"}
 
+// the session strings: in the protocol packages only the function getSSID is read (what a session id is made of: the curve of
+// the run, the committee, the public key material, the round number and the nonce)
+var ssidDirs = []string{"ecdsa/keygen", "ecdsa/resharing", "ecdsa/signing", "eddsa/keygen", "eddsa/resharing", "eddsa/signing"}
+
 // names of one or two characters keep their case (T the commitment and t the Pedersen base are different things)
 func lowerFirst(s string) string {
 	if len(s) < 3 {
@@ -39,6 +43,13 @@ func normExpr(e ast.Expr) string {
 		}
 		return base + "." + lowerFirst(x.Sel.Name)
 	case *ast.CallExpr:
+		// big.NewInt(int64(v)) and plain conversions are the value v
+		if len(x.Args) == 1 {
+			f := exprStr(x.Fun)
+			if f == "big.NewInt" || f == "int64" || f == "uint64" || f == "int" {
+				return normExpr(x.Args[0])
+			}
+		}
 		return normExpr(x.Fun)
 	case *ast.SliceExpr:
 		s := normExpr(x.X) + "["
@@ -108,7 +119,11 @@ type transcript struct {
 
 func genTranscripts() {
 	var ts []transcript
-	for _, dir := range transcriptDirs {
+	ssidOnly := map[string]bool{}
+	for _, d := range ssidDirs {
+		ssidOnly[d] = true
+	}
+	for _, dir := range append(append([]string{}, transcriptDirs...), ssidDirs...) {
 		pk := pkgs[dir]
 		if pk == nil {
 			unrecognised("transcripts: package %s not found", dir)
@@ -118,6 +133,9 @@ func genTranscripts() {
 			for _, d := range pk.files[fname].Decls {
 				fd, ok := d.(*ast.FuncDecl)
 				if !ok || fd.Body == nil {
+					continue
+				}
+				if ssidOnly[dir] && fd.Name.Name != "getSSID" {
 					continue
 				}
 				// local slice definitions: name -> flattened elements (assignments in source order; append to itself extends)
@@ -135,6 +153,13 @@ func genTranscripts() {
 					switch r := as.Rhs[0].(type) {
 					case *ast.CallExpr:
 						if f, ok := r.Fun.(*ast.Ident); ok && f.Name == "append" {
+							// x = append(x, more...) extends the recorded definition of x
+							if first, ok := r.Args[0].(*ast.Ident); ok && lowerFirst(first.Name) == name && len(r.Args) > 1 {
+								if prev, ok := locals[name]; ok {
+									locals[name] = append(append([]string{}, prev...), flattenArgs(r.Args[1:], r.Ellipsis.IsValid(), locals)...)
+									return true
+								}
+							}
 							locals[name] = flattenArgs(r.Args, r.Ellipsis.IsValid(), locals)
 						}
 					case *ast.CompositeLit:
